@@ -435,14 +435,17 @@ Print Assumptions C10_stability_layer_conservative.
 
 (* every history of ZSTD_compressStream2 / ZSTD_compressStream / ZSTD_flushStream / ZSTD_endStream calls over one input
    array (stable or buffered input, any sizes, capacities, directives), from any state that satisfies the API invariant and
-   in which the check accepts the caller's position: no call is refused with stabilityCondition_notRespected, and the
-   check still accepts the caller's position afterwards (i.e. in a frame in progress whose applied mode is stable, once a
-   real buffer is recorded, expectedInBuffer.pos is the position the caller holds) *)
+   in which none of the three controls (refuses_any: ZSTD_checkBufferStability in a frame in progress; same source and
+   pos == expectedInBuffer.size in the init stage while input is deferred - fix 0548f83 -, for a caller's call and for a
+   wrapper's call) would refuse: no call is refused with stabilityCondition_notRespected, and the controls still accept the
+   caller afterwards (i.e. in a frame in progress whose applied mode is stable, once a real buffer is recorded,
+   expectedInBuffer.pos is the position the caller holds; while input is deferred a real buffer is recorded and the caller
+   and the recorded position stand at expectedInBuffer.size) *)
 Theorem C10_stable_caller_never_refused : forall (CS : Type) (cs_begin : CS -> fconf -> N -> CS)
     (compress_chunk : CS -> bytes -> bool -> CS * bytes) (P : kparams) (X : bytes) (ops : list aop) (s : sstate CS) (em : bytes)
     (dones : list (CS * list (bytes * bool))) (cs0 : CS) (chunks : list (bytes * bool)) (s' : sstate CS) (b : bool),
-  AInv CS cs_begin compress_chunk P X (s_a s) em dones cs0 chunks -> check_refuses CheckNow s = false -> ops_ok ops ->
-  srun CS cs_begin compress_chunk CheckNow KeepNow P X s ops = Some (s', b) -> b = false /\ check_refuses CheckNow s' = false.
+  AInv CS cs_begin compress_chunk P X (s_a s) em dones cs0 chunks -> refuses_any CheckNow s = false -> ops_ok ops ->
+  srun CS cs_begin compress_chunk CheckNow KeepNow P X s ops = Some (s', b) -> b = false /\ refuses_any CheckNow s' = false.
 Proof. exact stable_caller_never_refused. Qed.
 Print Assumptions C10_stable_caller_never_refused.
 
@@ -467,4 +470,43 @@ Example ex_stability :
   ex_srun CheckPre9a6b24a KeepNow [OFlush 100 exfc; OCall 4 100 DirContinue exfc] = Some (0, 0, true, true) /\
   ex_srun CheckNow KeepNow [OCall 10 100 DirContinue exfc; OFlush 3 exfc; OCall 2 100 DirContinue exfc] = Some (12, 12, false, false) /\
   ex_srun CheckNow KeepNoPos [OCall 10 100 DirContinue exfc; OFlush 3 exfc; OCall 2 100 DirContinue exfc] = Some (4, 10, false, true).
+Proof. vm_compute. repeat split. Qed.
+
+(* ---------------- round 3: driving ZSTD_endStream terminates, in every input mode (coq/Stream/C10Term.v) ---------------- *)
+From ZV.Stream Require Import C10Term.
+
+(* from every state of an API-level history (stable or buffered input; bytes deferred, handed back, or still presented by the
+   recorded buffer), ZSTD_endStream calls with at least one byte of output room each reach the return value 0 (or an error)
+   after finitely many calls: aend_run does not come back with AEMore for some number of calls *)
+Theorem C10_api_endStream_terminates : forall (CS : Type) (cs_begin : CS -> fconf -> N -> CS)
+    (compress_chunk : CS -> bytes -> bool -> CS * bytes) (P : kparams) (X : bytes) (fc : fconf) (ck : N) (caps : nat -> N),
+  1 <= fc_maxBlock fc -> (forall i, 1 <= caps i) ->
+  forall (a : astate CS) (em : bytes) (dones : list (CS * list (bytes * bool))) (cs0 : CS) (chunks : list (bytes * bool)) (i : nat),
+  AInv CS cs_begin compress_chunk P X a em dones cs0 chunks ->
+  exists n, match aend_run CS cs_begin compress_chunk P fc X a caps ck i n with AEMore _ => False | _ => True end.
+Proof. exact api_endStream_terminates. Qed.
+Print Assumptions C10_api_endStream_terminates.
+
+(* the same for ZSTD_compressStream2(ZSTD_e_end) calls that present all that remains of the input array: theorem
+   C10_cstream_terminates without its hypothesis "buffered input" (at the level of API histories) *)
+Theorem C10_api_end_call_terminates : forall (CS : Type) (cs_begin : CS -> fconf -> N -> CS)
+    (compress_chunk : CS -> bytes -> bool -> CS * bytes) (P : kparams) (X : bytes) (fc : fconf) (caps : nat -> N),
+  1 <= fc_maxBlock fc -> (forall i, 1 <= caps i) ->
+  forall (a : astate CS) (em : bytes) (dones : list (CS * list (bytes * bool))) (cs0 : CS) (chunks : list (bytes * bool)) (i : nat),
+  AInv CS cs_begin compress_chunk P X a em dones cs0 chunks ->
+  exists n, match acend_run CS cs_begin compress_chunk P fc X a caps i n with AEMore _ => False | _ => True end.
+Proof. exact api_end_call_terminates. Qed.
+Print Assumptions C10_api_end_call_terminates.
+
+(* 10 bytes deferred in stable-input mode (store compressor, blocks of 4 bytes): ZSTD_endStream with 1 byte of room per call
+   needs 10 calls (9 are not enough), with 3 bytes of room 4 calls *)
+Example ex_endStream_terminates :
+  match ex_run [OCall 10 100 DirContinue exfc] with
+  | Some (a, _) =>
+      aend_run unit ex_begin ex_chunk exP exfc exX a (fun _ => 1) 0 0 10 = AEDone 10 /\
+      aend_run unit ex_begin ex_chunk exP exfc exX a (fun _ => 3) 0 0 4 = AEDone 4 /\
+      acend_run unit ex_begin ex_chunk exP exfc exX a (fun _ => 5) 0 3 = AEDone 3 /\
+      (match aend_run unit ex_begin ex_chunk exP exfc exX a (fun _ => 1) 0 0 9 with AEMore _ => True | _ => False end)
+  | None => False
+  end.
 Proof. vm_compute. repeat split. Qed.
